@@ -158,6 +158,21 @@ func registeredBy(p *Program, opener *ssa.Function) map[string]*ssa.Function {
 				}
 			}
 		}
+		// slices / arrays of functions (e.g. the package loaders): every LGFunction the stored value is built from
+		for _, m := range maps {
+			for x := range BackwardSlice(m) {
+				switch f := x.(type) {
+				case *ssa.Function:
+					if sigIsLG(f) {
+						add("?"+f.Name(), f)
+					}
+				case *ssa.ChangeType:
+					if ff, ok := f.X.(*ssa.Function); ok && sigIsLG(ff) {
+						add("?"+ff.Name(), ff)
+					}
+				}
+			}
+		}
 		for _, m := range maps {
 			if m.Referrers() == nil {
 				continue
